@@ -54,6 +54,13 @@ class Ax:
         return eq(self.size, other.size) and nest_eq(self.nest, other.nest)
 
 
+def known_label(l):
+    """A factor label that names one size symbol or a constant (not an
+    opaque block and not a compound expression of unknown nesting)."""
+    import re
+    return bool(l) and re.match(r'^[A-Za-z_][A-Za-z_0-9]*$', l) is not None
+
+
 def nest_clean(nest):
     return tuple((l, s) for l, s in nest if not eq(s, 1))
 
@@ -69,9 +76,11 @@ def nest_str(nest):
 
 
 class Arr:
-    def __init__(self, axes, is_list=False):
+    def __init__(self, axes, is_list=False, parts=None):
         self.axes = tuple(axes)
         self.is_list = is_list
+        self.parts = parts          # 1-D concatenation of unlike blocks
+        self.random = False         # holds independent random draws
 
     @property
     def ndim(self):
@@ -107,6 +116,7 @@ class ShapeLifter(Lifter):
         self.defined = {}       # opaque label -> nest that a reshape defined
         self.terminals = []     # (call node, [arg values]) of terminal calls
         self.explore_guards = False
+        self.generic_compare = False   # decide `a == b` on symbolic sizes
 
     # -- helpers ---------------------------------------------------------------
     def note(self, kind, node, msg, **kw):
@@ -287,8 +297,16 @@ class ShapeLifter(Lifter):
                                       ((None, None),)))
                     else:
                         sz = sp.expand(hi - lo)
-                        out.append(Ax(sz) if not eq(sz, axes[pos].size)
-                                   else axes[pos])
+                        nst = axes[pos].nest
+                        if eq(sz, axes[pos].size):
+                            out.append(axes[pos])
+                        elif len(nst) == 1 and nst[0][0] and \
+                                nst[0][0].startswith('?'):
+                            # a block of a flat vector of unknown layout
+                            out.append(Ax(sz, (('%s[%s:%s]' % (
+                                nst[0][0], lo, hi), sz),)))
+                        else:
+                            out.append(Ax(sz))
                 pos += 1
                 continue
             iv = self.ev(e, env, fn, depth, owner)
@@ -323,12 +341,23 @@ class ShapeLifter(Lifter):
                     continue
                 res.append(o)
             out = res
-        return Arr(out)
+        return Arr(out, is_list=v.is_list and len(out) == 1)
 
     def _assign(self, t, val, env, fn, depth, owner):
         if isinstance(t, ast.Subscript) and isinstance(t.value, ast.Name):
             tgt = self.subscript(t, env, fn, depth, owner)
             if isinstance(tgt, Arr) and isinstance(val, Arr):
+                if val.random and (val.ndim < tgt.ndim or any(
+                        eq(q.size, 1) and not eq(p.size, 1) for p, q in zip(
+                            tgt.axes[-val.ndim:], val.axes))):
+                    self.note('shape', t,
+                              'random draws of shape %s are broadcast into '
+                              '`%s` of shape %s: the same realisation is '
+                              'repeated along the missing axis instead of '
+                              'independent draws' % (
+                                  tuple(str(a.size) for a in val.axes),
+                                  U(t)[:40],
+                                  tuple(str(a.size) for a in tgt.axes)))
                 self.broadcast(tgt, val, t, 'assignment to `%s`' % U(t)[:40],
                                into=True)
             return
@@ -360,7 +389,7 @@ class ShapeLifter(Lifter):
                 out.append(p)
             elif eq(p.size, q.size):
                 if p.nest and q.nest and not nest_eq(p.nest, q.nest) and \
-                        all(l is not None for l, s in p.nest + q.nest):
+                        all(known_label(l) for l, s in p.nest + q.nest):
                     self.note('layout', node,
                               '%s combines an axis laid out as (%s) with one '
                               'laid out as (%s)' % (what, nest_str(p.nest),
@@ -430,6 +459,12 @@ class ShapeLifter(Lifter):
         """1-D concatenation: k equal blocks (nest X) -> (k > X)."""
         if not all(isinstance(a, Arr) and a.ndim == 1 for a in arrs):
             return TOP
+        nz = [a for a in arrs if not eq(a.axes[0].size, 0)]
+        if not nz:
+            return arrs[0]
+        if len(nz) == 1:
+            return nz[0]
+        arrs = nz
         first = arrs[0].axes[0]
         if all(a.axes[0].same(first) for a in arrs) and len(arrs) > 1:
             k = sp.Integer(len(arrs))
@@ -437,7 +472,10 @@ class ShapeLifter(Lifter):
                            + first.nest),), is_list=arrs[0].is_list)
         size = sum(a.axes[0].size for a in arrs)
         nest = (('+'.join(nest_str(a.axes[0].nest) for a in arrs), size),)
-        return Arr((Ax(size, nest),), is_list=arrs[0].is_list)
+        parts = []
+        for a in arrs:
+            parts += a.parts if a.parts else [a]
+        return Arr((Ax(size, nest),), is_list=arrs[0].is_list, parts=parts)
 
     def _stmt(self, s, env, fn, depth, owner):
         self._cur = s
@@ -465,6 +503,19 @@ class ShapeLifter(Lifter):
                 new = cur
             self._assign(s.target, new, env, fn, depth, owner)
             return None
+        if isinstance(s, ast.If) and not self._is_guard(s) \
+                and self.generic_compare:
+            t = s.test
+            if isinstance(t, ast.Compare) and len(t.ops) == 1 and isinstance(
+                    t.ops[0], (ast.Eq, ast.NotEq)):
+                a = self.ev(t.left, env, fn, depth, owner)
+                b = self.ev(t.comparators[0], env, fn, depth, owner)
+                if isinstance(a, sp.Expr) and isinstance(b, sp.Expr):
+                    r = eq(a, b)
+                    if isinstance(t.ops[0], ast.NotEq):
+                        r = not r
+                    return self._block(s.body if r else s.orelse, env, fn,
+                                       depth, owner)
         if isinstance(s, ast.If) and not self._is_guard(s):
             # unknown tests: rank dispatch is decided from the abstract rank
             t = s.test
@@ -517,6 +568,8 @@ class ShapeLifter(Lifter):
             v = self.ev(it, env, fn, depth, owner)
             if isinstance(v, Arr) and v.ndim >= 1:
                 ax = v.axes[0]
+        if ax is not None and eq(ax.size, 0):
+            return None             # statically empty iterable
         # loop variables: scalars / elements
         for x in ast.walk(s.target):
             if isinstance(x, ast.Name):
@@ -528,12 +581,13 @@ class ShapeLifter(Lifter):
                     st.target, (ast.Name, ast.Attribute)):
                 cur = env.get(U(st.target))
                 val = self.ev(st.value, env, fn, depth, owner)
-                if isinstance(cur, Arr) and cur.is_list and eq(
-                        cur.total(), 0) and isinstance(val, Arr) \
-                        and val.is_list and ax is not None:
-                    accs[U(st.target)] = Arr(
-                        (Ax(ax.size * val.axes[0].size,
-                            ax.nest + val.axes[0].nest),), is_list=True)
+                if isinstance(cur, Arr) and cur.is_list and isinstance(
+                        val, Arr) and val.is_list and ax is not None:
+                    blk = Arr((Ax(ax.size * val.axes[0].size,
+                                  ax.nest + val.axes[0].nest),),
+                              is_list=True)
+                    accs[U(st.target)] = blk if eq(cur.total(), 0) \
+                        else self.concat([cur, blk])
                     continue
             if isinstance(st, ast.Expr) and isinstance(
                     st.value, ast.Call) and isinstance(
@@ -642,6 +696,24 @@ class ShapeLifter(Lifter):
                     return Arr([Ax(d) for d in dims])
             return TOP
         if f == 'range':
+            return TOP
+        if isinstance(n.func, ast.Attribute) and n.func.attr in (
+                'normal', 'lognormal', 'uniform', 'standard_normal'):
+            sz = None
+            for k in n.keywords:
+                if k.arg == 'size':
+                    sz = ev(k.value)
+            if isinstance(sz, (Tup, tuple)):
+                dims = [self.as_int(x) for x in sz]
+                if all(d is not None for d in dims):
+                    a = Arr([Ax(d) for d in dims])
+                    a.random = True
+                    return a
+            d = self.as_int(sz)
+            if d is not None:
+                a = Arr([Ax(d)])
+                a.random = True
+                return a
             return TOP
         if isinstance(n.func, ast.Attribute):
             recv, attr = n.func.value, n.func.attr
